@@ -42,7 +42,13 @@ pub fn prop(id: &str) -> (ScreenProp, u64, u64) {
             (
                 ScreenProp {
                     id: "C02",
-                    opts: vec![("multi-top", base, 8), ("multi-bottom-alignment", bottom, 2)],
+                    opts: vec![("multi-top", base, 7), ("multi-bottom-alignment", bottom, 2), ("multi-exhausted-limiter", {
+                        let mut l = GenOpts::multi();
+                        l.hz = vec![Some(1), Some(1), Some(3)];
+                        l.exhaust = true;
+                        l.finish_weight = 2;
+                        l
+                    }, 3)],
                     judge: any_rule(MEMBER_RULES),
                     check_cursor: true,
                 },
